@@ -14,7 +14,7 @@ func FuzzText(f *testing.F) {
 		f.Skip("native fuzzing runs in the thorough tier only")
 	}
 	seeds := map[string][]string{
-		"Date": {"2024-02-29", "", "2023-02-29", "0001-01-01"}, "DateTime": {"2024-06-01 12:34:56 UTC", "2024-06-01 12:34:56", "2024-06-01 24:00:00 +0330"},
+		"Date": {"2024-02-29", "", "2023-02-29", "0001-01-01"}, "DateTime": {"2024-06-01 12:34:56 UTC", "2024-06-01 12:34:56", "2024-06-01 24:00:00 +0330", "2024-06-01 12:34:56.789 UTC", "2024-06-01 12:34:56,5"},
 		"HHmm": {"08:30", "24:00", "23:60"}, "SystemTime": {"23:59:59"}, "PIN": {"0", "999999", "1000000"}, "ControlState": {"normally open", "controlled"},
 		"TaskType": {"control door", "13", "0"}, "CardFormat": {"any", "Wiegand-26"}, "Version": {"v8.92", "0892"}, "MacAddress": {"00:66:19:39:55:2d"},
 		"BindAddr": {"0.0.0.0:0", "192.168.1.100:60001"}, "BroadcastAddr": {"255.255.255.255:60000"}, "ListenAddr": {"0.0.0.0:60001"}, "ControllerAddr": {"192.168.1.100:60000"},
@@ -40,6 +40,13 @@ func FuzzText(f *testing.F) {
 		}
 		if raw {
 			return
+		}
+		switch typ {
+		case "DateTime", "Date", "HHmm", "SystemTime":
+			// ... and at the level of values: an accepted text has become a value that survives its own JSON form
+			if x := checkAccepted(acceptedCase{typ, text}); x != nil {
+				t.Fatalf("[%s] %s", x.Fingerprint, x.Msg)
+			}
 		}
 		for _, as := range []string{typ, map[string]string{"Date": "ParseDate", "HHmm": "HHmmFromString"}[typ]} {
 			if as == "" {
